@@ -45,9 +45,9 @@ def to_int(x):
 _SIMS = {}
 
 
-def sim_inputs(family, d, p):
+def sim_inputs(family, d, p, direction=(1 / 3, 1 / 3, 1 / 3)):
     """inputs block of a real DirectSimulation (what a results file records)."""
-    key = (family, d, p)
+    key = (family, d, p, direction)
     if key not in _SIMS:
         from panqec import codes as pc
         from panqec.error_models import PauliErrorModel
@@ -55,7 +55,7 @@ def sim_inputs(family, d, p):
         from panqec.simulation import DirectSimulation
         from panqec.utils import NumpyEncoder
         code = getattr(pc, family)(d, d)
-        em = PauliErrorModel(1 / 3, 1 / 3, 1 / 3)
+        em = PauliErrorModel(*direction)
         dec = MatchingDecoder(code, em, p)
         sim = DirectSimulation(code, em, dec, p, verbose=False)
         _SIMS[key] = (json.loads(json.dumps(sim._inputs, cls=NumpyEncoder)), 2 * code.k)
@@ -78,9 +78,12 @@ def planted_counts(c):
     return out
 
 
-def record(c, d, off, n, nfail):
+COMPANION_DIRECTION = (0.1, 0.1, 0.8)
+
+
+def record(c, d, off, n, nfail, direction=(1 / 3, 1 / 3, 1 / 3)):
     p = round(c['pth'] * (1000 + off) / 1e7, 9)
-    inputs, width = sim_inputs(c['family'], d, p)
+    inputs, width = sim_inputs(c['family'], d, p, direction)
     bad = [1] + [0] * (width - 1)
     good = [0] * width
     return {'results': {'n_runs': n, 'wall_time': 0.001 * n,
@@ -133,7 +136,17 @@ def materialise(c, counts, layout, work):
     raise common.MachineryError(f'unknown layout {layout}')
 
 
-def estimate(paths, mode='all', window=None):
+def companion_file(c, comp, work):
+    """Result files of ANOTHER parameter set (same code family and decoder,
+    another noise model, its own planted threshold) next to the case's own."""
+    counts = planted_counts(comp)
+    rows = [(d, off, counts[j][m]) for j, d in enumerate(comp['ds']) for m, off in enumerate(comp['offs'])]
+    p = os.path.join(work, 'companion', 'results.json.gz')
+    write_gz(p, [record(comp, d, off, comp['n'], nf, COMPANION_DIRECTION) for d, off, nf in rows])
+    return p
+
+
+def estimate(paths, mode='all', window=None, own_noise_only=False):
     from panqec.analysis import Analysis
     out = {'raised': '', 'mode': mode}
     try:
@@ -147,6 +160,12 @@ def estimate(paths, mode='all', window=None):
                 an.overrides['total'][key] = {'error_rate': {'min': window[0], 'max': window[1]}}
             an.calculate_thresholds(autotruncate=(mode == 'auto'))
             th = an.thresholds
+        if own_noise_only:
+            # two parameter sets were supplied: the row of the case's own noise model
+            if len(th) != 2:
+                out['raised'] = f'{len(th)} threshold rows for two (code, noise, decoder) sets'
+                return out
+            th = th[~th['error_model_label'].astype(str).str.contains('r_z=0.8', regex=False)]
         if len(th) != 1:
             out['raised'] = f'{len(th)} threshold rows for one (code, noise, decoder)'
             return out
@@ -193,6 +212,20 @@ def drive(args):
         finally:
             shutil.rmtree(work, ignore_errors=True)
         r['layout'] = lay
+        runs.append(r)
+    # the same files next to those of another parameter set: the estimate of a
+    # set must not depend on what else is analysed with it
+    comp = item.get('companion')
+    if comp is not None:
+        work = os.path.join(workroot, f'c{idx}_comp')
+        os.makedirs(work, exist_ok=True)
+        try:
+            own = materialise(c, counts, layouts[0], os.path.join(work, 'own'))
+            companion_file(c, comp, work)
+            r = estimate(work, 'all', None, own_noise_only=True)
+        finally:
+            shutil.rmtree(work, ignore_errors=True)
+        r['layout'] = {'kind': 'with_another_parameter_set', 'a': 1, 'b': 0, 'parts': 2}
         runs.append(r)
     return {'kind': 'planted', 'case': c, 'counts': counts, 'runs': runs,
             '_cost': 5 * len(runs)}
@@ -258,6 +291,11 @@ def run(tier):
     wroot = common.scratch_dir('c16')
     jobs = []
     for j, it in enumerate(cases):
+        # companion: another case of the same family with a different threshold
+        others = [o['case'] for o in cases if o['case']['family'] == it['case']['family']
+                  and o['case']['pth'] != it['case']['pth']]
+        if others and (tier != 'quick' or j % 3 == 0):
+            it['companion'] = others[(7 * j) % len(others)]
         if tier == 'quick':
             pick = [layouts[0]] + [ls[int(rng.integers(len(ls)))] for ls in kinds.values()]
             pick.append(layouts[1 + int(rng.integers(len(layouts) - 1))])
